@@ -25,11 +25,11 @@ def accepts (pluginType ctor : Ty) (dflt : Option Ty) : Bool :=
   (newImplConstructorExpects pluginType ctor ++ newDefaultConfigContainerExpects ctor dflt).all id
 
 theorem entryChecks_eq : entryChecks =
-    ["newImplConstructor(pluginType, constructor)", "newDefaultConfigContainer(reflect.TypeOf(constructor), defaultConfig)"] := by
+    ["newImplConstructor($reflect.Type, $any)", "newDefaultConfigContainer(reflect.TypeOf($any), $any#1)"] := by
   decide
 
 theorem registerStores_eq :
-    registerStores = "nameReg[name] = newNameRegistryEntry(pluginType, constructor, defaultConfig)" := by decide
+    registerStores = "$nameRegistry[$string] = newNameRegistryEntry($reflect.Type, $any, $any#1)" := by decide
 
 theorem tys_len_zero {ts : Tys} (h : ts.len = 0) : ts = .nil := by
   cases ts with
@@ -181,8 +181,8 @@ theorem shortcut_factory (sh : Shape) (n : Nat) (hn : n = 1 ∨ n = 2) (hf : sh.
   rcases hn with rfl | rfl <;> cases cfg <;> cases ctorErr <;> cases factErr <;> cases iface <;> cases dflt <;> decide
 
 theorem shortcuts_eq :
-    pluginShortcut = "c.newPlugin.Type() == factoryType => return c.newPlugin.Interface(), nil" ∧
-    factoryShortcut = "factory.Type() == factoryType => return factory.Interface(), nil" := by decide
+    pluginShortcut = "$*pluginConstructor.newPlugin.Type() == $reflect.Type => return $*pluginConstructor.newPlugin.Interface(), nil" ∧
+    factoryShortcut = "$reflect.Value.Type() == $reflect.Type => return $reflect.Value.Interface(), nil" := by decide
 
 /-- `Register`'s own three expectations are the model's `regSelfOk` -/
 theorem registerExpects_eq (pt : Ty) (name : String) (dup : Bool) :
@@ -201,15 +201,16 @@ theorem registerExpects_refuses :
 after a panic with the error when it is not nil: the model's `convertOut` -/
 theorem convert_eq :
     convertNumOutCases = "1,2" ∧
-    convertAppendCond = "len(OUT) < numOut" ∧ convertAppended = "OUT = append(OUT, reflect.Zero(errorType))" ∧
-    convertTrimCond = "numOut < len(OUT)" ∧
-    convertTrimBody = "if !OUT[1].IsNil() { panic(OUT[1].Interface()) } ; OUT = OUT[:1]" := by decide
+    convertAppendCond = "len($[]reflect.Value) < $int" ∧
+    convertAppended = "$[]reflect.Value = append($[]reflect.Value, reflect.Zero(errorType))" ∧
+    convertTrimCond = "$int < len($[]reflect.Value)" ∧
+    convertTrimBody = "if !$[]reflect.Value[1].IsNil() { panic($[]reflect.Value[1].Interface()) } ; $[]reflect.Value = $[]reflect.Value[:1]" := by decide
 
 /-- a config error inside the closure of a component-constructor factory: panic for `func() Plugin`, the error result
 for `func() (Plugin, error)` — the model's `callFac (.wrapPlugin numOut)` -/
 theorem confErr_eq : confErrSwitch =
-    [("1", "panic(err)"),
-     ("2", "return []reflect.Value{reflect.Zero(c.pluginType), reflect.ValueOf(&err).Elem()}"),
+    [("1", "panic($error)"),
+     ("2", "return []reflect.Value{reflect.Zero($*pluginConstructor.pluginType), reflect.ValueOf(&$error).Elem()}"),
      ("default", "panic(other)")] := by decide
 
 /-! ### where user code is called -/
@@ -220,50 +221,50 @@ def site (tbl : List (String × String × Nat × Nat × Nat)) (fn callee : Strin
 
 /-- `Registry.New` = one `Get` + one `NewPlugin` (model `regNew`) -/
 theorem sites_New :
-    site callSites "Registry.New" "registered.defaultConfig.Get" = some (1, 0, 0) ∧
-    site callSites "Registry.New" "registered.constructor.NewPlugin" = some (1, 0, 0) := by decide
+    site callSites "Registry.New" "$nameRegistryEntry.defaultConfig.Get" = some (1, 0, 0) ∧
+    site callSites "Registry.New" "$nameRegistryEntry.constructor.NewPlugin" = some (1, 0, 0) := by decide
 
 /-- `Registry.NewFactory`: `Get` only inside the `getMaybeConfig` closure, the empty-struct fillConf check outside,
 one `NewFactory` of the constructor (model `regNewFactory`) -/
 theorem sites_NewFactory :
-    site callSites "Registry.NewFactory" "registered.defaultConfig.Get" = some (0, 1, 0) ∧
-    site callSites "Registry.NewFactory" "fillConf" = some (1, 0, 0) ∧
-    site callSites "Registry.NewFactory" "registered.constructor.NewFactory" = some (1, 0, 0) ∧
-    newFactoryBranches = ["registered.defaultConfig.configRequired()", "fillConf != nil"] := by decide
+    site callSites "Registry.NewFactory" "$nameRegistryEntry.defaultConfig.Get" = some (0, 1, 0) ∧
+    site callSites "Registry.NewFactory" "$func" = some (1, 0, 0) ∧
+    site callSites "Registry.NewFactory" "$nameRegistryEntry.constructor.NewFactory" = some (1, 0, 0) ∧
+    newFactoryBranches = ["$nameRegistryEntry.defaultConfig.configRequired()", "$func != nil"] := by decide
 
 /-- `Get` = at most one `new` + at most one fillConf; `new` = one call of the default-config function (model `dcGet`,
 `dcNew`) -/
 theorem sites_Get :
-    site callSites "defaultConfigContainer.Get" "e.new" = some (1, 0, 0) ∧
-    site callSites "defaultConfigContainer.Get" "fillConf" = some (1, 0, 0) ∧
-    site callSites "defaultConfigContainer.new" "e.newValue.Call" = some (1, 0, 0) := by decide
+    site callSites "defaultConfigContainer.Get" "$defaultConfigContainer.new" = some (1, 0, 0) ∧
+    site callSites "defaultConfigContainer.Get" "$func" = some (1, 0, 0) ∧
+    site callSites "defaultConfigContainer.new" "$defaultConfigContainer.newValue.Call" = some (1, 0, 0) := by decide
 
 /-- a struct default value is copied into an addressable config, a nil pointer is replaced by a new zero config
 (model `dcNew`) -/
 theorem newConfig_eq : newConfigSwitch =
-    [("reflect.Struct", "if !conf.CanAddr() { newArg := reflect.New(conf.Type()).Elem() ; newArg.Set(conf) ; conf = newArg } ; fillAddr = conf.Addr().Interface()"),
-     ("reflect.Ptr", "if conf.IsNil() { conf = reflect.New(conf.Type().Elem()) } ; fillAddr = conf.Interface()"),
-     ("default", "panic(\"unexpected type \" + conf.String())")] := rfl
+    [("reflect.Struct", "if !$reflect.Value.CanAddr() { $reflect.Value#1 := reflect.New($reflect.Value.Type()).Elem() ; $reflect.Value#1.Set($reflect.Value) ; $reflect.Value = $reflect.Value#1 } ; $any = $reflect.Value.Addr().Interface()"),
+     ("reflect.Ptr", "if $reflect.Value.IsNil() { $reflect.Value = reflect.New($reflect.Value.Type().Elem()) } ; $any = $reflect.Value.Interface()"),
+     ("default", "panic(\"unexpected type \" + $reflect.Value.String())")] := rfl
 
 /-- **component constructor**: config and constructor are called INSIDE the closure handed to reflect.MakeFunc — once
 per product (model `callFac (.wrapPlugin _)`); `NewPlugin` calls the constructor once (model `pluginCtor`) -/
 theorem sites_pluginConstructor :
-    site callSites "pluginConstructor.NewFactory" "getMaybeConf" = some (0, 1, 0) ∧
-    site callSites "pluginConstructor.NewFactory" "c.newPlugin.Call" = some (0, 1, 0) ∧
+    site callSites "pluginConstructor.NewFactory" "$func" = some (0, 1, 0) ∧
+    site callSites "pluginConstructor.NewFactory" "$*pluginConstructor.newPlugin.Call" = some (0, 1, 0) ∧
     site callSites "pluginConstructor.NewFactory" "convertFactoryOutParams" = some (0, 1, 0) ∧
-    site callSites "pluginConstructor.NewPlugin" "c.newPlugin.Call" = some (1, 0, 0) := by decide
+    site callSites "pluginConstructor.NewPlugin" "$*pluginConstructor.newPlugin.Call" = some (1, 0, 0) := by decide
 
 /-- **factory constructor**: config and constructor are called OUTSIDE the closure — once per `NewFactory` — and only the
 registered factory inside — once per product (model `ctorNewFactory`, `callFac (.wrapFactory _ _)`); `NewPlugin` calls
 constructor and factory once each (model `newPlugin`) -/
 theorem sites_factoryConstructor :
-    site callSites "factoryConstructor.NewFactory" "getMaybeConf" = some (1, 0, 0) ∧
-    site callSites "factoryConstructor.NewFactory" "c.callNewFactory" = some (1, 0, 0) ∧
-    site callSites "factoryConstructor.NewFactory" "factory.Call" = some (0, 1, 0) ∧
+    site callSites "factoryConstructor.NewFactory" "$func" = some (1, 0, 0) ∧
+    site callSites "factoryConstructor.NewFactory" "$*factoryConstructor.callNewFactory" = some (1, 0, 0) ∧
+    site callSites "factoryConstructor.NewFactory" "$reflect.Value.Call" = some (0, 1, 0) ∧
     site callSites "factoryConstructor.NewFactory" "convertFactoryOutParams" = some (0, 1, 0) ∧
-    site callSites "factoryConstructor.NewPlugin" "c.callNewFactory" = some (1, 0, 0) ∧
-    site callSites "factoryConstructor.NewPlugin" "factory.Call" = some (1, 0, 0) ∧
-    site callSites "factoryConstructor.callNewFactory" "c.newFactory.Call" = some (1, 0, 0) := by decide
+    site callSites "factoryConstructor.NewPlugin" "$*factoryConstructor.callNewFactory" = some (1, 0, 0) ∧
+    site callSites "factoryConstructor.NewPlugin" "$reflect.Value.Call" = some (1, 0, 0) ∧
+    site callSites "factoryConstructor.callNewFactory" "$*factoryConstructor.newFactory.Call" = some (1, 0, 0) := by decide
 
 /-! ### the engine's use of the factories, core/register -/
 
@@ -272,27 +273,48 @@ open Pandora.Model.C18Engine in
 itself called once for the first instance and once per further instance (`runNewInstance`, in the start loop); the
 shared rps schedule is made by one `NewRPSSchedule` call, the per-instance one is `NewRPSSchedule` itself -/
 theorem engine_sites :
-    site engineSites "instancePool.warmUpGun" "p.NewGun" = some (warmupGunCalls, 0, 0) ∧
-    site engineSites "newInstance" "deps.newGun" = some (gunCallsPerInstance, 0, 0) ∧
-    site engineSites "newInstance" "deps.newSchedule" = some (1, 0, 0) ∧
+    site engineSites "instancePool.warmUpGun" "$*instancePool.NewGun" = some (warmupGunCalls, 0, 0) ∧
+    site engineSites "newInstance" "$instanceDeps.newGun" = some (gunCallsPerInstance, 0, 0) ∧
+    site engineSites "newInstance" "$instanceDeps.newSchedule" = some (1, 0, 0) ∧
     site engineSites "runNewInstance" "newInstance" = some (1, 0, 0) ∧
     site engineSites "instancePool.startInstances" "newInstance" = some (1, 0, 0) ∧
     site engineSites "instancePool.startInstances" "runNewInstance" = some (0, 1, 1) ∧
-    site engineSites "instancePool.startInstances" "p.NewGun" = some (0, 0, 0) ∧
-    site engineSites "instancePool.buildNewInstanceSchedule" "p.NewRPSSchedule" = some (1, 0, 0) ∧
-    engineDeps = ["newGun: p.NewGun", "newSchedule: newInstanceSchedule"] ∧
-    enginePerInstanceBranch = "if p.RPSPerInstance { return p.NewRPSSchedule, nil }" := by decide
+    site engineSites "instancePool.startInstances" "$*instancePool.NewGun" = some (0, 0, 0) ∧
+    site engineSites "instancePool.buildNewInstanceSchedule" "$*instancePool.NewRPSSchedule" = some (1, 0, 0) ∧
+    engineDeps = ["newGun: $*instancePool.NewGun", "newSchedule: $func"] ∧
+    enginePerInstanceBranch = "if $*instancePool.RPSPerInstance { return $*instancePool.NewRPSSchedule, nil }" := by decide
 
 /-- core/register: every helper registers for the plugin interface of its name through `plugin.Register` -/
 theorem register_helpers :
-    registerPtrBody = "plugin.Register(plugin.PtrType(ptr), name, newPlugin, defaultConfigOptional...)" ∧
+    registerPtrBody = "plugin.Register(plugin.PtrType($any), $string, $any#1, $[]any...)" ∧
     registerHelpers =
-      [("Aggregator", "*core.Aggregator", "RegisterPtr(ptr, name, newAggregator, defaultConfigOptional...)"),
-       ("DataSink", "*core.DataSink", "RegisterPtr(ptr, name, newDataSink, defaultConfigOptional...)"),
-       ("DataSource", "*core.DataSource", "RegisterPtr(ptr, name, newDataSource, defaultConfigOptional...)"),
-       ("Gun", "*core.Gun", "RegisterPtr(ptr, name, newGun, defaultConfigOptional...)"),
-       ("Limiter", "*core.Schedule", "RegisterPtr(ptr, name, newLimiter, defaultConfigOptional...)"),
-       ("Provider", "*core.Provider", "RegisterPtr(ptr, name, newProvider, defaultConfigOptional...)")] :=
+      [("Aggregator", "*core.Aggregator", "RegisterPtr($*core.Aggregator, $string, $any, $[]any...)"),
+       ("DataSink", "*core.DataSink", "RegisterPtr($*core.DataSink, $string, $any, $[]any...)"),
+       ("DataSource", "*core.DataSource", "RegisterPtr($*core.DataSource, $string, $any, $[]any...)"),
+       ("Gun", "*core.Gun", "RegisterPtr($*core.Gun, $string, $any, $[]any...)"),
+       ("Limiter", "*core.Schedule", "RegisterPtr($*core.Schedule, $string, $any, $[]any...)"),
+       ("Provider", "*core.Provider", "RegisterPtr($*core.Provider, $string, $any, $[]any...)")] :=
   ⟨rfl, rfl⟩
+
+/-! ### lookup and registration in a registry that holds several registrations (model: `Model/C18Sess`) -/
+
+/-- `get`: the plugin type is looked up first, then the name in that type's table; each miss leaves with an error result
+and nothing else happens — the model's `findSlot` / `Out.noEntry` -/
+theorem get_steps : getSteps =
+    ["lookup $*Registry.typeToNameReg[$reflect.Type]", "if !$bool { $error = errors.Errorf(…) ; return }",
+     "lookup $nameRegistry[$string]", "if !$bool { $error = errors.Errorf(…) }", "return"] ∧
+    site callSites "Registry.get" "errors.Errorf" = some (2, 0, 0) := by decide
+
+/-- `Register`: two expectations (interface, non-empty name), THEN the name table of the plugin type is fetched or created
+and stored, then the duplicate check on (type, name), then constructor checks and the
+store of the entry — the order the model's `exec (.register r)` follows (a refused constructor leaves the table behind) -/
+theorem register_steps : registerSteps =
+    ["expect", "expect", "$nameRegistry := $*Registry.typeToNameReg[$reflect.Type]",
+     "if $nameRegistry == nil { $nameRegistry = newNameRegistry() ; $*Registry.typeToNameReg[$reflect.Type] = $nameRegistry }",
+     "_, $bool := $nameRegistry[$string]", "expect",
+     "$nameRegistry[$string] = newNameRegistryEntry($reflect.Type, $any, $any#1)"] := by decide
+
+/-- `Lookup` answers whether the plugin type owns a name table (model: `sst.types.contains t`) -/
+theorem lookup_steps : lookupSteps = ["_, $bool := $*Registry.typeToNameReg[$reflect.Type]", "return $bool"] := by decide
 
 end Pandora.Bridge.Plugin
